@@ -161,6 +161,14 @@ func spec_depth(s string, i int) int {
 //@   requires r != nil
 //@   ensures result == r.name
 
+//@ func Universe.Package
+//@   props C06 C13
+//@   pure
+//@   functional
+//@   heapfree
+//@   requires u != nil
+//@   note heapfree: the loaded universe is ASSUMED immutable while generators run (u.pkgs is written only by Load)
+
 //@ func Universe.SumFile
 //@   props C08
 //@   pure
@@ -192,6 +200,7 @@ func spec_val(s string) string {
 
 //@ func splitKV
 //@   props C12
+//@   pure
 //@   ensures (forall j int :: 0 <= j && j < len(line) ==> line[j] != '=' && line[j] != ' ') ==> result0 == line && result1 == ""
 //@   ensures forall i int :: 0 <= i && i < len(line) && (line[i] == '=' || line[i] == ' ') && (forall j int :: 0 <= j && j < i ==> line[j] != '=' && line[j] != ' ') ==> result0 == line[:i] && result1 == line[i+1:]
 //@   ensures result0 == spec_key(line) && result1 == spec_val(line)
@@ -233,6 +242,7 @@ func spec_markers(markers []byte) []byte {
 
 //@ func ExtractCommentTags
 //@   props C12 C06
+//@   pure
 //@   ensures tags != nil
 //@   ensures eq(otherLines, spec_others(lines, spec_markers(markers), len(lines)))
 //@   ensures forall k string :: eq(tags[k], spec_vals(lines, spec_markers(markers), k, len(lines)))
@@ -255,6 +265,8 @@ func spec_eq[T any](a, b T) bool                        { panic("ghost: structur
 func spec_all[T any](p func(T) bool) bool               { panic("ghost: unbounded quantifier") }
 func spec_any[T any](p func(T) bool) bool               { panic("ghost: unbounded quantifier") }
 func spec_fresh(p any) bool                             { panic("ghost: allocation predicate") }
+// spec_existed(p): the object p refers to already existed when the function under verification was entered.
+func spec_existed(p any) bool { panic("ghost: allocation predicate") }
 func spec_assert(c bool) {
 	if !c {
 		panic("ghost assertion failed")
@@ -338,6 +350,9 @@ const (
 	spec_Deferred = 3
 )
 
+// spec_callMark(): len(spec_fx()) at the moment user code was most recently invoked (ghost): relates the two logs in time.
+func spec_callMark() int { panic("ghost: call mark") }
+
 // spec_calls(): the call log so far, in order (ghost).
 func spec_calls() []spec_Call { panic("ghost: call log") }
 
@@ -348,3 +363,7 @@ func spec_pipeline() []string { panic("ghost: formatter pipeline log") }
 // spec_parsed() / spec_parsedName(): the source text and file name most recently handed to go/parser (ghost).
 func spec_parsed() string     { panic("ghost: parsed text") }
 func spec_parsedName() string { panic("ghost: parsed file name") }
+
+// spec_mapKeys(m) / spec_mapVals(m): the keys and values stored so far in a sync.Map, in insertion order (ghost).
+func spec_mapKeys(m any) []any { panic("ghost: sync.Map keys") }
+func spec_mapVals(m any) []any { panic("ghost: sync.Map values") }
